@@ -1,5 +1,6 @@
 """C08 - rail_rep() is the solve() table summed per supply rail."""
 
+import copy
 import math
 import re
 
@@ -61,7 +62,13 @@ def gen(rng, i, tier):
                 c["limits"] = {"tp": [-40.0, G.sig(rng.uniform(20.0, 60.0))]}
     return {"spec": spec, "energy": rng.random() < 0.3, "ta": rng.choice([25.0, 25.0, 70.0]),
             "phase_arg": rng.random() < 0.3, "history": rng.choice(_rows.HISTORIES), "hseed": rng.randrange(1 << 30),
-            "tags": rng.random() < 0.2}
+            "tags": rng.random() < 0.2, "decoy": rng.random() < 0.3}
+
+
+class _NoCount:
+    @staticmethod
+    def count(*a, **k):
+        pass
 
 
 def directed():
@@ -89,6 +96,23 @@ def run(ctx, case):
         kw["tags"] = {"rev": "C"}
     if case["phase_arg"] and phases:
         kw["phase"] = phases[len(phases) // 2]
+    early = None
+    if case.get("decoy"):
+        # another System - same structure and build history, twice the load - is solved with the same arguments just
+        # before the report is requested, and the report is requested BEFORE the subject was ever solved with them
+        decoy_spec = copy.deepcopy(case["spec"])
+        for c in decoy_spec["comps"]:
+            for key in ("pwr", "ii"):
+                if c["kind"] in ("PLoad", "ILoad") and isinstance(c["args"].get(key), (int, float)):
+                    c["args"][key] = c["args"][key] * 2.0
+        try:
+            _, decoy = _rows.build_with_history(_NoCount, decoy_spec, case.get("history", "fresh"), case.get("hseed", 0), prefer="rail_rep")
+            with H.quiet():
+                H.solve(decoy, **kw)
+        except Exception:  # noqa: BLE001  (the decoy is only a disturbance; if it cannot be built there is none)
+            pass
+        early = H.call(sysobj.rail_rep, **kw)
+        ctx.count("history", "report requested right after a decoy system was solved")
     st, df = H.solve(sysobj, **kw)
     ctx.count("outcome", "returned" if st == "ok" else type(df).__name__)
     if st != "ok":
@@ -98,7 +122,7 @@ def run(ctx, case):
     if any(i.get("polarity_lost") or i.get("skipped") for i in info.values()):
         ctx.count("outcome", "unphysical table (skipped, C03)")
         return
-    st, rr = H.call(sysobj.rail_rep, **kw)
+    st, rr = early if early is not None else H.call(sysobj.rail_rep, **kw)
     ctx.check("rail.returns", st == "ok", {"exception": H.exc_sig(rr) if st != "ok" else "", "kw": kw,
                                            "why": "solve() returned for the same arguments"})
     if st != "ok":
